@@ -26,6 +26,9 @@ TREES = {
         "sub1/index.md": page("Sub1", ordered=("y.md",)), "sub1/x.md": page("X1"), "sub1/y.md": page("Y1"), "sub2/index.md": page("Sub2"), "sub2/w.md": page("W2")}, ""),
     "ordered with a repeated entry": ({
         "index.md": page("Root", ordered=("zeta.md", "sub", "zeta.md", "sub")), "alpha.md": page("Alpha"), "zeta.md": page("Zeta"), "sub/index.md": page("Sub"), "sub/k.md": page("K")}, ""),
+    "ordered with the same entry spelt three ways": ({
+        "index.md": page("Root", ordered=("zeta.md", "sub/", "./beta.md", "sub", "./index.md")), "alpha.md": page("Alpha"), "beta.md": page("Beta"), "zeta.md": page("Zeta"),
+        "sub/index.md": page("Sub"), "sub/k.md": page("K")}, ""),
     "dotted names": ({"index.md": page("Root"), "a.md": page("A plain"), "a.b.md": page("A dot B"), "release.1.2.md": page("Release")}, ""),
     "copy_subdir in metadata": ({
         "index.md": page("Root", "![p](plots/p.png)\n", copy=("images", "plots")), "images/i.png": "i", "plots/p.png": "p", "plots/deep/q.png": "q", "media/m.png": "m",
@@ -83,7 +86,8 @@ def model(tree, proj_copy):
         pages.append(((d + "/" if d else "") + "index.html", m["title"]))
         copy_dirs(d, m["copy_subdir"] or proj_copy)
         names = sorted(dirs.get(d, set()) - {"index.md"})
-        ordered = [o for o in m["ordered_subpage"] if o != "index.md"]
+        # an entry names a directory entry: `sub/` and `./b.md` are `sub` and `b.md`
+        ordered = [os.path.normpath(o) for o in m["ordered_subpage"] if os.path.normpath(o) != "index.md"]
         merged = list(dict.fromkeys(ordered + names))
         for nm in merged:
             if nm.startswith(".") or nm.endswith("~"):
